@@ -244,7 +244,11 @@ fn run_level(script: &Value) -> Value {
     let timeout = Duration::from_millis(script["op_timeout_ms"].as_u64().unwrap_or(3000));
     let ops = script["ops"].as_array().unwrap().clone();
     let mut level = Arc::new(PriceLevel::new(price));
-    let generator = Arc::new(UuidGenerator::new(ns));
+    let generator = Arc::new(match script.get("generator_counter").and_then(|c| c.as_u64()) {
+        // the generator is (de)serializable: that is the public way to obtain one that has already issued ids
+        Some(c0) => serde_json::from_value::<UuidGenerator>(json!({"namespace": ns.to_string(), "counter": c0})).unwrap(),
+        None => UuidGenerator::new(ns),
+    });
     let mut out = Vec::new();
     for op in ops {
         // each op runs on its own thread so that a non-terminating or panicking call is reported
